@@ -266,7 +266,7 @@ impl Prop for Histories {
         "book_move_histories"
     }
     fn strategy(&self, _: &Ctx) -> BoxedStrategy<HistoryCase> {
-        prop::collection::vec((0u8..10, any::<u16>()), 0..22)
+        prop::collection::vec((0u8..10, any::<u16>()), 0..26)
             .prop_map(|plies| HistoryCase { plies })
             .boxed()
     }
@@ -275,6 +275,7 @@ impl Prop for Histories {
         let mut p = Pos::startpos();
         let mut state = glue::state_direct(&p);
         let mut tempo_lost = false;
+        let mut last_move: [Option<Mv>; 2] = [None, None];
         for (kind, pick) in case.plies.iter() {
             // the lookup is made on the state reached by weechess's own successors
             let got: Option<BTreeSet<Mv>> = book().lookup(&state).map(|s| s.iter().map(glue::read_move).collect());
@@ -328,7 +329,13 @@ impl Prop for Histories {
                 .iter()
                 .filter(|(m, _)| matches!(m.kind, Kind::N | Kind::R | Kind::K) && m.cap.is_none() && m.castle.is_none())
                 .collect();
-            let chosen: &(Mv, Pos) = if *kind <= 5 && !book_moves.is_empty() {
+            // undo this side's previous move (round trips lose tempi and rights)
+            let undo: Option<&(Mv, Pos)> = last_move[p.stm as usize]
+                .and_then(|lm: Mv| legal.iter().find(|(m, _)| m.from == lm.to && m.to == lm.from && m.kind == lm.kind && m.cap.is_none()));
+            let chosen: &(Mv, Pos) = if (*kind == 7 || *kind == 8) && undo.is_some() {
+                tempo_lost = true;
+                undo.unwrap()
+            } else if *kind <= 5 && !book_moves.is_empty() {
                 book_moves[pick_index(*pick, book_moves.len())]
             } else if *kind <= 8 && !shuffles.is_empty() {
                 tempo_lost = true;
@@ -343,6 +350,7 @@ impl Prop for Histories {
                 return Err(format!("legal move {:?} of '{}' is not generated", chosen.0, p.fen()));
             };
             state = r.1.clone();
+            last_move[p.stm as usize] = Some(chosen.0);
             p = chosen.1.clone();
         }
         loc.sample(|| json!({"end": p.fen(), "plies": case.plies.len()}));
@@ -367,7 +375,7 @@ pub fn plan(ctx: &Ctx) -> Plan {
                castling-right subsets, en-passant target dropped, side flipped): the book offers nothing or only legal \
                moves, and exactly the recorded set if the variant is itself recorded. (3) generated real move histories \
                from the start position mixing book moves with tempo-losing rook/knight/king shuffles and arbitrary moves \
-               (<= 21 plies), looked up on the state reached by weechess's own successors: nothing or only legal moves \
+               (<= 25 plies; kinds: follow the book, shuffle a rook/knight/king, undo the side's previous move, any legal move), looked up on the state reached by weechess's own successors: nothing or only legal moves \
                everywhere, exactly the recorded set on recorded positions however they were reached. Non-trivial = \
                recorded positions with >= 2 moves; right-stripped variants of positions whose book moves include castling; \
                histories that reach a book placement with fewer rights.",
